@@ -63,6 +63,19 @@ theorem blocked_ctor_dims_sound (ss : List (List Shape)) (ncols : Nat) (rows col
       rows.getD i 0 = r ∧ cols.getD j 0 = c :=
   ctorDims_sound ss ncols rows cols h
 
+/-- **Index form ⇒ `WF`, hence the product theorem for whatever the constructor accepted**: if there are
+`rows.length` block rows of `cols.length` blocks and block `(i, j)` has `rows[i]` rows of length `cols[j]` — which is
+what `blocked_ctor_dims_sound` says about the shape table of an accepted array, with the `None` entries filled by
+`ZeroDiscreteBoundaryOperator(rows[i], cols[j])` as `__init__` does — then `_matvec(x) = to_dense() @ x`. -/
+theorem blocked_matvec_eq_dense_of_index (blocks : List (List (Mat K))) (rows cols : List Nat)
+    (hlen : blocks.length = rows.length) (hc : cols ≠ [])
+    (hrow : ∀ i (hi : i < blocks.length), (blocks[i]).length = cols.length)
+    (hblk : ∀ i j (hi : i < blocks.length) (hj : j < (blocks[i]).length),
+      ((blocks[i])[j]).length = rows.getD i 0 ∧ ∀ ρ ∈ (blocks[i])[j], ρ.length = cols.getD j 0)
+    (x : Vec K) :
+    matvecBlocked blocks rows cols x = matvec (toDense blocks) x :=
+  matvecBlocked_eq blocks rows cols (WF_of_index blocks rows cols hlen hrow hblk) hc x
+
 example : ctorDims [[some (1, 2), none], [some (3, 2), some (3, 4)]] 2 = .ok ([1, 3], [2, 4]) := by decide
 /-- an inconsistent column and a column without operator are rejected -/
 example : ctorDims [[some (1, 2), none], [some (3, 5), some (3, 4)]] 2 = .error () := by decide
